@@ -1494,6 +1494,10 @@ namespace link_layer {
                     result = handle_ll_control_data( pdu, output );
                     this->free_ll_l2cap_received();
                     pdu = this->next_ll_l2cap_received();
+
+                    // the number of callbacks that can be queued is limited, while the number of
+                    // PDUs that are handled here, in a row, is not.
+                    this->template handle_connection_events< link_layer< Server, ScheduledRadio, Options... > >();
                 }
                 else
                 {
